@@ -226,12 +226,26 @@ def iterators(ctx, facts, cfg):
             ctx.violation('C12.b-iterators', 'iterator-state', '%s holds %s; expected exactly an ended flag, a next index and the borrowed work' % (adt_p, fl), site=adt['span'], fn=adt_p, cfg=cfg)
             continue
         problems = iterator_protocol(facts, fn, F, accessor, kind, RL)
+        second = None
+        if problems:
+            # second opinion: path-sensitive walk of the MIR (loops once, Option variants learnt from aggregates and switches)
+            from . import iterpaths
+            try:
+                p2 = iterpaths.check(facts, fn, F, accessor, kind, RL, scan_value)
+                if not p2:
+                    second = problems
+                    problems = []
+            except iterpaths.Giveup:
+                pass
+            except Exception:
+                pass
         problems += other_iterator_methods(facts, adt_p, F)
         if problems:
             for pr in sorted(set(problems)):
                 ctx.violation('C12.b-iterators', re.sub(r'[^A-Za-z]+', '-', pr)[:60], '%s: %s' % (p, pr), site=fn.span, fn=p, cfg=cfg)
         else:
-            ctx.ok('C12.b-iterators', '%s@%s' % (p, cfg), {'protocol': 'ended only set true; ended => None without effects; index only grows; items = %s(index); None only after ended := true' % core.short(accessor)})
+            ctx.ok('C12.b-iterators', '%s@%s' % (p, cfg), {'protocol': 'ended only set true; ended => None without effects; index only grows; items = %s(index); None only after ended := true' % core.short(accessor),
+                                                           'decided_by': 'path-sensitive second opinion (shape not recognised by the pattern checker: %s)' % second[0][:80] if second else 'pattern checker'})
 
 
 def other_iterator_methods(facts, adt_p, F):
